@@ -890,6 +890,50 @@ struct Win {
     ~Win() { c.exit(write); }
     Win(const Win&) = delete;
 };
+// A user callable that is sensitive to the value category it is invoked with, like a functor with an &&-qualified operator(),
+// std::bind_front, or a lambda that moves a captured payload out: invoked as an rvalue it hands its state over, so it can be
+// invoked that way once and not at all afterwards. The library may forward a callable it was given as an rvalue into ONE
+// invocation; a second application (lr_guarded's second copy, a retry loop, a later deferred run) must use it as an lvalue.
+template<class F>
+struct OneShot {
+    F f;
+    bool spent = false;
+    void live() const
+    {
+        if (spent) violation("oracle:user_callable_invoked_again_after_an_rvalue_invocation_consumed_it", "{}");
+    }
+    template<class... A>
+    decltype(auto) operator()(A&&... a) &
+    {
+        live();
+        return f(std::forward<A>(a)...);
+    }
+    template<class... A>
+    decltype(auto) operator()(A&&... a) const&
+    {
+        live();
+        return f(std::forward<A>(a)...);
+    }
+    template<class... A>
+    decltype(auto) operator()(A&&... a) &&
+    {
+        live();
+        spent = true;
+        return f(std::forward<A>(a)...);
+    }
+};
+template<class F>
+inline OneShot<std::decay_t<F>> one_shot(F&& f)
+{
+    return OneShot<std::decay_t<F>>{std::forward<F>(f)};
+}
+// after the library was handed an lvalue callable: it must not have consumed it (the caller may use it again)
+template<class F>
+inline void still_usable(const OneShot<F>& f)
+{
+    if (f.spent) violation("oracle:library_consumed_a_callable_passed_as_lvalue", "{}");
+}
+
 inline Cell make_value(uint32_t id)
 {
     Cell c;
